@@ -387,10 +387,12 @@ static J run(const J& c)
         std::string infix = c["a2"].as_bytes();
         return guarded([&](J& o) {
             o.set("out", J::bytes(nitro::lang::join(elems.begin(), elems.end(), infix)));
+#ifndef VERIF_MINIMAL
             std::list<Item> l(elems.begin(), elems.end());
             J alts = J::arr();
             alts.push(J::bytes(nitro::lang::join(l.begin(), l.end(), infix)));
             o.set("alts", alts);
+#endif
         });
     }
     if (op == "starts")
